@@ -91,12 +91,132 @@ def _z3_try(f, ob, timeout_s, tactic=None):
     return s, r
 
 
+GIVEN_UP = [0]        # obligations of the current task on which every back end gave up
+
+
+def reset_given_up():
+    GIVEN_UP[0] = 0
+
+
 def discharge(ob, timeout_s=30, fallbacks=True, tactic=None):
-    """Portfolio: z3 API (short slice), then cvc5 CLI, then /usr/bin/z3, then z3 API with the full budget."""
+    """Portfolio: z3 API (short slice), then cvc5 CLI, then /usr/bin/z3, then z3 API with the full budget.
+    Once three obligations of a task have exhausted the full budget (the task is undecided whatever follows), the rest of
+    the task runs with a 15 s budget, so that a task of many hard obligations ends in minutes instead of hours."""
+    if GIVEN_UP[0] >= 3:
+        timeout_s = min(timeout_s, 15)
+    r = _discharge(ob, timeout_s, fallbacks, tactic)
+    if r.status == 'unknown':
+        GIVEN_UP[0] += 1
+    return r
+
+
+def guess_model(f, ob, tries=400, max_size=200000):
+    """Look for a model of f by evaluating it on boundary and random assignments of its integer / Boolean constants
+    (sound: a found assignment is a model, checked by evaluation; nothing is concluded when none is found).  Used when
+    the solvers time out on formulas that mix integer arithmetic with bit vectors."""
+    import random
+    try:
+        if len(f.sexpr()) > max_size:
+            return None
+    except Exception:  # noqa
+        return None
+    consts, nums, seen = {}, set(), set()
+    stack = [f]
+    while stack:
+        e = stack.pop()
+        if e.get_id() in seen:
+            continue
+        seen.add(e.get_id())
+        if z3.is_quantifier(e):
+            return None
+        if z3.is_int_value(e):
+            nums.add(e.as_long())
+        elif z3.is_const(e) and e.decl().kind() == z3.Z3_OP_UNINTERPRETED:
+            consts[e.decl().name()] = e
+        elif z3.is_app(e) and e.decl().kind() == z3.Z3_OP_UNINTERPRETED and e.num_args() > 0:
+            return None
+        stack.extend(e.children())
+    if not consts or any(not (z3.is_int(c) or z3.is_bool(c) or z3.is_real(c)) for c in consts.values()):
+        return None
+    # simple bounds stated as top-level conjuncts (x >= c, x < c, x <= c): sample inside them
+    lo, hi = {}, {}
+    conj = list(f.children()) if z3.is_and(f) else [f]
+    for c in conj:
+        if z3.is_app(c) and c.num_args() == 2 and c.decl().kind() in (z3.Z3_OP_GE, z3.Z3_OP_LE, z3.Z3_OP_LT, z3.Z3_OP_GT):
+            a, b = c.arg(0), c.arg(1)
+            kd = c.decl().kind()
+            if z3.is_int_value(a) and z3.is_const(b):
+                a, b = b, a
+                kd = {z3.Z3_OP_GE: z3.Z3_OP_LE, z3.Z3_OP_LE: z3.Z3_OP_GE, z3.Z3_OP_LT: z3.Z3_OP_GT, z3.Z3_OP_GT: z3.Z3_OP_LT}[kd]
+            if z3.is_const(a) and a.decl().kind() == z3.Z3_OP_UNINTERPRETED and z3.is_int(a) and z3.is_int_value(b):
+                n, v = a.decl().name(), b.as_long()
+                if kd == z3.Z3_OP_GE:
+                    lo[n] = max(lo.get(n, v), v)
+                elif kd == z3.Z3_OP_GT:
+                    lo[n] = max(lo.get(n, v + 1), v + 1)
+                elif kd == z3.Z3_OP_LE:
+                    hi[n] = min(hi.get(n, v), v)
+                else:
+                    hi[n] = min(hi.get(n, v - 1), v - 1)
+    rnd = random.Random(len(consts) * 7919 + len(nums))
+    cands = sorted({0, 1, 2, 7, 8, 15, 16, 255, 256} | {n + d for n in nums for d in (-1, 0, 1) if abs(n) < (1 << 70)})
+    ints = [c for c in consts.values() if z3.is_int(c)]
+    bools = [c for c in consts.values() if z3.is_bool(c)]
+    reals = sorted([c for c in consts.values() if z3.is_real(c)], key=lambda c: c.decl().name())
+    for k in range(tries):
+        sub = []
+        for c in ints:
+            n = c.decl().name()
+            l, h = lo.get(n), hi.get(n)
+            mode = rnd.random()
+            if l is not None and h is not None and l <= h:
+                inside = [x for x in cands if l <= x <= h]
+                if mode < 0.3 and inside:
+                    v = rnd.choice(inside)
+                elif mode < 0.4:
+                    v = rnd.choice((l, h))
+                elif mode < 0.7:
+                    v = l + rnd.getrandbits(rnd.choice((3, 4, 8, 12, 16, 18, 20, 29, 32))) % (h - l + 1)
+                else:
+                    v = rnd.randint(l, h)
+            elif mode < 0.45:
+                v = rnd.choice(cands)
+            elif mode < 0.9:
+                v = rnd.getrandbits(rnd.choice((3, 4, 8, 12, 16, 18, 20, 29, 32)))
+            else:
+                v = -rnd.getrandbits(8)
+            if l is not None and v < l:
+                v = l
+            if h is not None and v > h:
+                v = h
+            sub.append((c, z3.IntVal(v)))
+        for c in bools:
+            sub.append((c, z3.BoolVal(rnd.random() < 0.5)))
+        for j, c in enumerate(reals):
+            sub.append((c, z3.RealVal(j + (k % 3))))         # increasing with the order of creation (clock readings)
+        if z3.is_true(z3.simplify(z3.substitute(f, *sub))):
+            return {c.decl().name(): (v.as_long() if z3.is_int_value(v) else (z3.is_true(v) if z3.is_bool(v) else v)) for c, v in sub}
+    return None
+
+
+def _discharge(ob, timeout_s=30, fallbacks=True, tactic=None):
     t0 = time.time()
     f = ob.formula()
     first = min(timeout_s, 8) if fallbacks else timeout_s
     s, r = _z3_try(f, ob, first, tactic)
+    if r == z3.unknown:
+        gm = guess_model(f, ob)
+        if gm is not None:
+            # re-check with the solver under the guessed assignment, so that the model comes from the usual path
+            s2 = z3.Solver()
+            s2.set('timeout', 5000)
+            s2.add(f)
+            for k, v in gm.items():
+                s2.add((z3.Bool(k) == v) if isinstance(v, bool) else ((z3.Int(k) == v) if isinstance(v, int) else (z3.Real(k) == v)))
+            if s2.check() == z3.sat:
+                m = s2.model()
+                mv = {k: model_value(m, t) for k, t in ob.inputs.items()}
+                return Result(ob, 'refuted', 'z3-' + z3.get_version_string() + ' (model found by evaluation on boundary/random assignments)', time.time() - t0, mv)
     if r == z3.unknown and fallbacks:
         smt2 = '(set-logic ALL)\n' + s.to_smt2()
         for name, cmd in (('cvc5-cli', ['/usr/bin/cvc5', '--strings-exp', f'--tlimit={int(timeout_s * 1000)}']),
